@@ -266,7 +266,7 @@ LEVEL_TEXT = {
     },
     "C10": {
         "text": "Unbounded proof (Verus), structural part only: Parser::read_build's result satisfies explicit_ins + implicit_ins + order_only_ins + validation_ins == ins.len() and explicit_outs <= outs.len() for every input text (the three subtractions cannot underflow), and the parser consumes input monotonically; Build's accessor slices are the consecutive ranges explicit | implicit | order-only | validation (units graph/sched).",
-        "note": "Section classification per token, escape semantics and spacing-independence are not decided; Loader::add_build's mapping of the parsed counts, path order and attributes onto graph::Build is (unit load).",
+        "note": "Roles at separator level are decided (read_build: each path list is read right behind the separator that declares its role -- `|`, `||`, `|@` -- and each count is the number of paths read in that list); escape semantics and spacing-independence are not; Loader::add_build's mapping of the parsed counts, path order and attributes onto graph::Build is (unit load).",
         "design_ref": "DESIGN.md §6 C10",
     },
     "C18": {
